@@ -187,6 +187,11 @@ func (r *Report) Finish(verifDir string) int {
 	for k, v := range r.Counters {
 		cov[k] = v
 	}
+	if pr, ok := r.Counters["probes"]; ok && pr > 0 {
+		// probes are transitions executed on the real system from an explored state (applied, never extended)
+		r.Counters["transitions"] += pr
+		cov["transitions"] = r.Counters["transitions"]
+	}
 	cov["outcomes"] = r.Outcomes
 	cov["distinct_nontrivial"] = len(r.distinct)
 	if _, ok := cov["evaluations"]; !ok {
